@@ -28,7 +28,7 @@ theorem C19_mulDiv64_clauses (x y d r : Int) (hx : IntTy.u64.InRange x) (hy : In
   by_cases hd0 : d = 0
   · simp [hd0]
   · have c := exact_clauses IntTy.u64 (x * y / d) _ rfl
-    simp only [if_neg hd0, hd0, iff_false, ne_eq, not_false_eq_true, true_and]
+    simp only [hd0, iff_false, ne_eq, not_false_eq_true, true_and]
     exact ⟨c.1 r, c.2.2.1.mp, c.2.2.2.1, c.2.2.2.2⟩
 
 /-- never a spurious error, as a statement of its own -/
